@@ -103,6 +103,34 @@ pub fn run(run: &mut Run) -> PResult {
         }
     }
     run.generator("all ordered pairs of distinct cards", "exhaustive", Some(2652), n, nt, "score, six helpers, swap symmetry, three suit shifts each");
+    if !run.is_twin() {
+        // call-order independence: every ordered pair of two-card hands scored back to back
+        let hands: Vec<(u32, u32)> = card::DECK.iter().flat_map(|a| card::DECK.iter().filter(move |b| *b != a).map(move |b| (*a, *b))).collect();
+        let hit = engine::ordered_pairs(
+            &hands,
+            &|h| {
+                std::hint::black_box(Two::new(h.0, h.1).chen_formula());
+            },
+            &|h| {
+                let (r1, s1) = card::decode(h.0).unwrap();
+                let (r2, s2) = card::decode(h.1).unwrap();
+                let t = Two::new(h.0, h.1);
+                let got = t.chen_formula() as i32;
+                let ok = got == chen::chen(r1, s1, r2, s2) && t.get_gap() as u32 == chen::gap(r1, r2) && t.is_suited() == (s1 == s2) && t.is_pocket_pair() == (r1 == r2) && t.high_card() == h.0.max(h.1);
+                if ok {
+                    Ok(())
+                } else {
+                    Err(format!("chen_formula / helpers on [{} {}] gave {} (gap {}, suited {}, pair {}), Chen's formula gives {}", card::render(h.0), card::render(h.1), got, t.get_gap(), t.is_suited(), t.is_pocket_pair(), chen::chen(r1, s1, r2, s2)))
+                }
+            },
+        );
+        let np = (hands.len() * hands.len()) as u64;
+        run.generator("all ordered pairs of two-card hands scored back to back", "exhaustive (histories of length 2)", Some(np), np, np - hands.len() as u64, "2,652 x 2,652 sequences of two calls");
+        if let Some((a, b, m)) = hit {
+            let (ha, hb) = (hands[a], hands[b]);
+            return run.violation("C17.sequence", &format!("{} {} ; {} {}", card::render(ha.0), card::render(ha.1), card::render(hb.0), card::render(hb.1)), json!({"sequence": [hand_json(&[ha.0, ha.1]), hand_json(&[hb.0, hb.1])]}), &format!("after scoring [{} {}]: {}", card::render(ha.0), card::render(ha.1), m));
+        }
+    }
     for (k, v) in classes {
         run.class(&k, v);
     }
@@ -118,6 +146,15 @@ pub fn run(run: &mut Run) -> PResult {
 pub fn check_case(clause: &str, case: &Value) -> Result<(), String> {
     match clause {
         "C17.points" => points_clause(engine::parse_word(&case["word"])?),
+        "C17.sequence" => {
+            std::hint::black_box(Two::new(card::DECK[5], card::DECK[30]).chen_formula());
+            for (i, h) in case["sequence"].as_array().ok_or("sequence")?.iter().enumerate() {
+                let ws = engine::parse_words(&h["words"])?;
+                let a = arr::<2>(&ws)?;
+                pair_clause(a[0], a[1]).map_err(|m| format!("call {}: {}", i + 1, m))?;
+            }
+            Ok(())
+        }
         _ => {
             let ws = engine::parse_words(&case["words"])?;
             let a = arr::<2>(&ws)?;
